@@ -345,9 +345,9 @@ def gen_rule_cases(rule, rng, thorough, counter):
     for (present, pname, named) in cases:
         shape_sets = []
         if thorough:
-            # cross: each shape in turn for one designated arg, others rotate
+            # cross: each shape in turn for the first arg (the others rotate), three value choices each
             for sh in SHAPE_ORDER:
-                shape_sets.append(sh)
+                shape_sets.extend([sh, sh, sh])
         else:
             shape_sets.append(SHAPE_ORDER[counter[0] % len(SHAPE_ORDER)])
         for sh0 in shape_sets:
@@ -517,7 +517,7 @@ def run(chk, replay=None):
     # ---- 2. proofs
     broken = chk.lean(['Lcapy/Props/C06.lean'],
                       helper_files=['Lcapy/Proofs/ParserLemmas.lean', 'Lcapy/Model/Parser.lean', 'Lcapy/Spec/Netlist.lean',
-                                    'Lcapy/Driver/C06.lean'],
+                                    'Lcapy/Spec/NetlistExec.lean', 'Lcapy/Driver/C06.lean', 'Lcapy/Generated/Grammar.lean'],
                       leanchecker=(chk.tier == 'thorough'))
     drv = chk.get_driver()
     real = Real()
@@ -543,6 +543,8 @@ def run(chk, replay=None):
     if not m or int(m.group(1)) != n_rules_real or m.group(2) != 'true' or int(m.group(3)) != len(real.rules):
         disagreements.append({'what': 'table-size', 'model': info_reply, 'lcapy': '%d rules %d types' % (n_rules_real, len(real.rules))})
         chk.coverage['correspondence']['disagreements'] += 1
+
+    ok_cache = {}
 
     def disagree(what, text, lc, md):
         chk.coverage['correspondence']['disagreements'] += 1
@@ -613,6 +615,14 @@ def run(chk, replay=None):
             chk.case(text, False)
             chk.count('outcome', 'rejected:' + err1)
             return 'rejected'
+        # ---------- how much of the input satisfies the hypothesis of arg_format_roundtrip / print_parse_args
+        for r in t1:
+            for a in r.args:
+                if a is not None:
+                    ok = ok_cache.get(a)
+                    if ok is None:
+                        ok = ok_cache[a] = drv.ask1('c06.okvalue ' + enc(a)).split(' ')[0]
+                    chk.count('theorem-hypothesis okValue[%s]' % origin, ok)
         # ---------- real print (through a real Circuit when it can be built)
         c1 = None
         try:
